@@ -206,7 +206,7 @@ fn assemble(
             }
         })
         .collect();
-    Ev { mdl, tpl, extent, props }
+    Ev { mdl, tpl, extent, props, layout: Layout::default() }
 }
 
 fn dups() -> impl Strategy<Value = Vec<(u32, PV)>> {
@@ -338,12 +338,12 @@ fn show(path: &str) {
     println!("reference msg = {:?}", ev.ref_msg());
     sinks::with_pipeline(|pl| {
         for (name, em) in [("all-signals/protobuf", &pl.full_proto), ("all-signals/json", &pl.full_json), ("logs/protobuf", &pl.logs_proto), ("logs/json", &pl.logs_json)] {
-            if let Err(f) = c13::catch_emit(|| ev.with_event(|e| em.emit(e))) {
+            if let Err(f) = c13::catch_emit(|| ev.emit_to(em)) {
                 println!("otlp {name}: PANIC on the emitting thread: {}", f.msg);
             }
             em.blocking_flush(sinks::FLUSH);
         }
-        if let Err(f) = c13::catch_emit(|| ev.with_event(|e| pl.file.emit(e))) {
+        if let Err(f) = c13::catch_emit(|| ev.emit_to(&pl.file)) {
             println!("file: PANIC on the emitting thread: {}", f.msg);
         }
         pl.file.blocking_flush(sinks::FLUSH);
